@@ -489,6 +489,21 @@ class Arr:
                 raise RuntimeError("expand: incompatible sizes")
         return self._view(shape, st, self._offset)
 
+    def stride(self, dim=None):
+        return tuple(self._strides) if dim is None else self._strides[self._norm_dim(dim)]
+
+    def as_strided(self, size, stride, storage_offset=None):
+        size, stride = [int(x) for x in size], [int(x) for x in stride]
+        if len(size) != len(stride):
+            raise RuntimeError("mismatch in length of strides and shape")
+        off = self._offset if storage_offset is None else int(storage_offset)
+        top = off + sum((n - 1) * st for n, st in zip(size, stride) if n > 0)
+        if any(n == 0 for n in size):
+            top = off
+        if top >= len(self._storage.data) and not any(n == 0 for n in size):
+            raise RuntimeError("setStorage: sizes, strides and storage offset are out of bounds for the storage")
+        return self._view(size, stride, off)
+
     def narrow(self, dim, start, length):
         dim = self._norm_dim(dim)
         if start < 0:
